@@ -155,8 +155,14 @@ func init() {
 				pluginKeys[i] = "./p/" + k
 				pm.set(pluginKeys[i], dMap(dkv{"c", dInt(int64(i))}))
 			}
+			envm := mk()
+			for j := range envm.m {
+				if rng.Chance(20) {
+					envm.m[j].v = dNull() // a variable declared without a value
+				}
+			}
 			doc := dMap(
-				dkv{"env", mk()},
+				dkv{"env", envm},
 				dkv{"steps", dList(
 					dMap(dkv{"command", dStr("x")}, dkv{"plugins", pm}, dkv{"unknown_field", dMap(dkv{"nested", mk()})}),
 					dMap(dkv{"mystery", mk()}, dkv{"deep", dList(mk())}, dkv{"deeper", dList(dList(dStr("scalar"), dList(mk())), dList(mk(), dInt(1)))}),
